@@ -191,6 +191,41 @@ Theorem check_run : forall v, segs_cover v = true -> check_C20 v (run_C20 v) = t
 Proof. exact check_run_l. Qed.
 Print Assumptions check_run.
 
+(** Soundness of the executable statement, create part: whenever [check_create]
+    accepts an output (normally the implementation's), that output has distinct
+    keys, exact positive counts, min(max_size, #distinct) entries, no omitted
+    token more frequent than a kept entry, and freq_sum equal to the total. *)
+Theorem check_create_sound : forall toks max_size items fs,
+  check_create toks max_size (L [I 0%Z; items; I fs]) = true ->
+  let d := v_items items in
+  NoDup (map fst d)
+  /\ (forall w f, In (w, f) d -> f = count_tok w toks /\ 0 < f)
+  /\ N.of_nat (length d)
+     = match max_size with
+       | None => N.of_nat (length (dedup toks))
+       | Some k => N.min k (N.of_nat (length (dedup toks)))
+       end
+  /\ (forall w, In w toks -> ~ In w (map fst d) -> forall w' f', In (w', f') d -> count_tok w toks <= f')
+  /\ (0 <= fs)%Z /\ Z.to_N fs = freq_sum d.
+Proof. exact check_create_sound_l. Qed.
+Print Assumptions check_create_sound.
+
+(** Soundness of the executable statement, get_closest part: an accepted answer is
+    None on the empty dictionary, and otherwise an entry of the dictionary at
+    minimal distance that no entry at the same distance exceeds in frequency. *)
+Theorem check_closest_sound : forall segs (d : dict) norm nq qc a,
+  check_closest segs d (norm, (nq, qc)) a = true ->
+  (d = [] -> exists g, a = L [g; L []]) /\
+  (d <> [] ->
+   (forall e, In e d -> seg_of segs (fst e) <> None) /\
+   exists g wv fz, a = L [g; L [L [wv; I fz]]] /\
+     In (v_bytes wv, Z.to_N fz) d /\
+     forall e', In e' d ->
+       (kdist norm segs qc (v_bytes wv, Z.to_N fz) <= kdist norm segs qc e')%Q /\
+       ((kdist norm segs qc e' == kdist norm segs qc (v_bytes wv, Z.to_N fz))%Q -> snd e' <= Z.to_N fz)).
+Proof. exact check_closest_sound_l. Qed.
+Print Assumptions check_closest_sound.
+
 (** Non-vacuity. A corpus "a b a" / "b c" (word mode), max_size 2: *)
 Example create_witness :
   let w x : winfo := ([x], []) in
